@@ -227,6 +227,16 @@ let handle (line : string) : string =
                    (hex (encode e.e_name))))
             es;
           Buffer.contents b)
+  | "docregex" -> (
+      match captures re_documented (decode (unhex f.(2))) with
+      | None -> "docregex none"
+      | Some c -> (
+          let one = Npos XH in
+          match (get_cap c N0, get_cap c one) with
+          | Some (a, b), Some (x, y) ->
+              Printf.sprintf "docregex %d %d %d %d" (int_of_n a) (int_of_n b) (int_of_n x) (int_of_n y)
+          | Some (a, b), None -> Printf.sprintf "docregex %d %d - -" (int_of_n a) (int_of_n b)
+          | None, _ -> "docregex PANIC"))
   | "extract" -> (
       match extract_reference the_params (decode (unhex f.(1))) with
       | None -> "extract none"
